@@ -174,17 +174,17 @@ Fixpoint wf (e : expr) : bool :=
 
 (* ---- the string that String() returns, atoms given by a table ---- *)
 Variable op_extended_not : N.
-Fixpoint print_string (atoms : list (N * bytes)) (e : expr) : option bytes :=
+Fixpoint render_string (atoms : list (N * bytes)) (e : expr) : option bytes :=
   match e with
   | Atom _ a => assoc_get atoms a
   | Un _ op x =>
-    match spell op, np_un op x, print_string atoms x with
+    match spell op, np_un op x, render_string atoms x with
     | Some s, Some b, Some sx =>
       Some (s ++ (if op =? op_extended_not then [32] else []) ++ (if b then [40] ++ sx ++ [41] else sx))
     | _, _, _ => None
     end
   | Bin _ op l r =>
-    match np_bin op l, print_string atoms l, spell op, np_bin op r, print_string atoms r with
+    match np_bin op l, render_string atoms l, spell op, np_bin op r, render_string atoms r with
     | Some bl, Some sl, Some s, Some br, Some sr =>
       Some ((if bl then [40] ++ sl ++ [41] else sl) ++ [32] ++ s ++ [32] ++ (if br then [40] ++ sr ++ [41] else sr))
     | _, _, _, _, _ => None
